@@ -21,6 +21,7 @@ def run(tier, seed):
     from contracts import segments
     segments.class_body_closure(rep, tier)
     wiring.ref_resolution_obligations(rep, tier)
+    wiring.frontend_definition_obligations(rep, tier)
     rep.assumptions.append('frame clause of the child contract: a child does not change user-visible names that are in scope at its entry '
                            '(G-scope is proved for every class under this hypothesis; it FAILS for Let itself - known finding)')
     rep.assumptions.append('bindings are python locals of the generated function: activations cannot share them (CPython semantics; no global/nonlocal is emitted - checked in C18)')
